@@ -304,7 +304,7 @@ class Source:
     def __init__(self, repo=None, conv_rs=None):
         self.repo = repo or os.environ.get("DASP_REPO", "/repo")
         self.conv_path = conv_rs or os.environ.get("DASP_CONV_RS") or os.path.join(self.repo, "dasp_sample/src/conv.rs")
-        self.types_path = os.path.join(self.repo, "dasp_sample/src/types.rs")
+        self.types_path = os.environ.get("DASP_TYPES_RS") or os.path.join(self.repo, "dasp_sample/src/types.rs")  # env: TESTING only
         self.lib_path = os.path.join(self.repo, "dasp_sample/src/lib.rs")
         self.custom = {}      # I24 -> dict(rep, eq, min, max, total)
         self.sample = {}      # i8 -> dict(signed_ty, float_ty, eq)
@@ -349,6 +349,16 @@ class Source:
             raise TranslateError("types.rs: new_unchecked is no longer `$T(s)`; the model treats it as the identity")
         if "pub fn inner ( self ) -> $ Rep { self . 0 }" not in flat:
             raise TranslateError("types.rs: inner() is no longer `self.0`; the model treats it as the identity")
+        # the constants and the validity check must be the macro arguments the tables are read from
+        for what, text in (
+                ("MIN", "pub const MIN : $ T = $ T ( $ MIN ) ;"), ("MAX", "pub const MAX : $ T = $ T ( $ MAX ) ;"),
+                ("EQUILIBRIUM", "pub const EQUILIBRIUM : $ T = $ T ( $ EQ ) ;"),
+                ("MIN_REP", "const MIN_REP : $ Rep = $ MIN ;"), ("MAX_REP", "const MAX_REP : $ Rep = $ MAX ;"),
+                ("new (the format's validity check)",
+                 "pub fn new ( val : $ Rep ) -> Option < Self > { if val > MAX_REP || val < MIN_REP { None } else { Some ( $ T ( val ) ) } }")):
+            if text not in flat:
+                raise TranslateError(f"types.rs: the definition of {what} in new_sample_type! is no longer `{text.replace(' ', '')}`; "
+                                     "the format table read from the invocations may not describe the types (model cannot be regenerated)")
 
     # ---- lib.rs
     def parse_lib(self):
